@@ -189,6 +189,18 @@ def chunk_worker(job):
                         row["roots"] = sorted(int(r.name[1:]) for r in roots)
                 except ConductorError as e:
                     row["proj"] = CLASS.get(type(e).__name__, "other:" + type(e).__name__)
+                if not row["proj"].startswith("loaderror"):
+                    # the explorer validates the SAME index again on every refresh: the verdict of a later validation counts
+                    # just as much as the first one (whatever the index remembers between calls must not change it)
+                    for _again in range(2):
+                        try:
+                            roots = ti.validate_all_loaded_tasks()
+                            row["proj"] = "ok"
+                            row["roots"] = sorted(int(r.name[1:]) for r in roots)
+                        except ConductorError as e:
+                            cls = CLASS.get(type(e).__name__, "other:" + type(e).__name__)
+                            if row["proj"] == "ok" or _again == 1:
+                                row["proj"], row["roots"] = cls, []
                 row["hasProj"] = True
             rows.append(row)
         return rows
